@@ -148,7 +148,9 @@ func (w *World) Tick(period time.Duration) sworld.StepObs {
 }
 
 func (w *World) Close() {
-	w.V.Stop()
+	// the report producers (periodic server, buffering listener) are stopped BEFORE the PFCP loop: stopping the loop
+	// first, as pkg/app does, lets a producer post to the report queue the loop has closed (the recorded C17
+	// finding), which would kill this worker process during a teardown no E1 property is about
 	w.G.Close()
 	w.K.CloseAll()
 	done := make(chan struct{})
@@ -157,6 +159,7 @@ func (w *World) Close() {
 	case <-done:
 	case <-time.After(10 * time.Second):
 	}
+	w.V.Stop()
 	for _, p := range w.Peers {
 		p.Drain()
 	}
